@@ -107,6 +107,10 @@ def dc_shapes(n):
             for sub in itertools.combinations(rest, k):
                 for order in itertools.permutations(sub):
                     out.append((npos, tuple(order), None))
+    for npos in range(1, n + 1):
+        out.append((npos, (0,), None))  # a field given by position AND by keyword: one value too many for it
+        if npos >= 2:
+            out.append((npos, (npos - 1,), None))
     out.append((0, (), "zz"))  # unknown keyword
     out.append((1, (), "zz"))
     return out
@@ -345,7 +349,8 @@ class C06(Check):
             py = ("ok", dict(bound.arguments))
         except TypeError as e:
             py = ("err", str(e))
-        malformed = bool(unknown) or npos > n or (py[0] == "err" and ("too many positional" in py[1] or "unexpected keyword" in py[1]))
+        malformed = bool(unknown) or npos > n or (py[0] == "err" and ("too many positional" in py[1] or "unexpected keyword" in py[1] or
+                                                                  "multiple values" in py[1]))
         try:
             out = resolve_syntatic_sugar(copy.deepcopy(lam))
         except ValueError as e:
